@@ -187,7 +187,14 @@ func (te *tableEngine) batchAddPlayers(players []JoinPlayer) error {
 	playerSeatIDs := make(map[string]int)
 	playerRandomSeatIDs := make([]string, 0)
 
+	batchPlayerIDs := make(map[string]bool)
 	for _, p := range players {
+		// the same player twice in one batch is refused before anything is changed
+		if _, exist := batchPlayerIDs[p.PlayerID]; exist {
+			return seat_manager.ErrDuplicatePlayers
+		}
+		batchPlayerIDs[p.PlayerID] = true
+
 		if p.Seat == seat_manager.UnsetSeatID {
 			playerRandomSeatIDs = append(playerRandomSeatIDs, p.PlayerID)
 		} else {
